@@ -189,8 +189,9 @@ def check(case, cl=None):
         for k, cp in enumerate(ctrl):
             found = None
             for i in range(pos[0], len(poly) - 1):
-                dist, t = geom.point_segment_distance(cp, poly[i], poly[i + 1])
-                if dist <= res + tol and (i, t) >= pos:
+                t = geom.segment_hits(cp, poly[i], poly[i + 1], res + tol,
+                                      pos[1] if i == pos[0] else 0.0)
+                if t is not None:
                     found = (i, t)
                     break
             if found is None:
